@@ -364,6 +364,8 @@ func TestCheck(t *testing.T) {
 		r.Case(fmt.Sprintf("missing/%s", g), func(c *h.Case) { missingCase(c, g) })
 		r.Case(fmt.Sprintf("concurrent/%s", g), func(c *h.Case) { concurrentCase(c, g) })
 		r.Case(fmt.Sprintf("nested-proxy/%s", g), func(c *h.Case) { nestedProxyCase(c, g) })
+		r.Case(fmt.Sprintf("net-rpc-and-error-types/%s", g), func(c *h.Case) { netRPCCase(c, g) })
+		r.Case(fmt.Sprintf("two-services-one-client/%s", g), func(c *h.Case) { twoServices(c, g) })
 	}
 }
 
@@ -1066,4 +1068,192 @@ func jsonRepresentable(args []reflect.Value) bool {
 		}
 	}
 	return true
+}
+
+// ---- net/rpc style methods, concrete error types ----
+
+type Args struct{ A, B int }
+
+type Reply struct {
+	Sum   int
+	Notes []string
+	Seen  map[string]int
+}
+
+type Arith struct{}
+
+// Add fills only part of the reply, depending on the arguments, and appends to the rest: a reply
+// object shared between calls shows as left-overs of an earlier (or concurrent) call.
+func (Arith) Add(args *Args, reply *Reply) error {
+	reply.Sum += args.A + args.B
+	if args.A%2 == 0 {
+		reply.Notes = append(reply.Notes, fmt.Sprintf("even:%d", args.A))
+	}
+	if args.B%3 == 0 {
+		if reply.Seen == nil {
+			reply.Seen = map[string]int{}
+		}
+		reply.Seen[fmt.Sprint(args.B)]++
+	}
+	if args.A < 0 {
+		return fmt.Errorf("negative operand %d", args.A)
+	}
+	return nil
+}
+
+type quotaError struct{ Left int }
+
+func (e *quotaError) Error() string { return fmt.Sprintf("quota exceeded, %d left", e.Left) }
+
+type richError interface {
+	error
+	Code() int
+}
+
+type codedError struct{ code int }
+
+func (e *codedError) Error() string { return fmt.Sprintf("coded error %d", e.code) }
+func (e *codedError) Code() int     { return e.code }
+
+func netRPCCase(c *h.Case, g group) {
+	r := c.R
+	svc := core.NewService()
+	svc.Codec = core.NewServiceCodec(core.WithSimple(g.simple))
+	svc.AddNetRPCMethods(Arith{})
+	svc.AddNetRPCMethods(Arith{}, "ns")
+	// last results of a concrete error type and of an interface embedding error
+	svc.AddFunction(func(n int) (int, *quotaError) {
+		if n > 100 {
+			return 0, &quotaError{Left: n - 100}
+		}
+		return n * 2, nil
+	}, "quota")
+	svc.AddFunction(func(n int) (string, richError) {
+		if n%2 == 1 {
+			return "", &codedError{n}
+		}
+		return fmt.Sprint("even ", n), nil
+	}, "rich")
+	srv, err := peer.Start(g.kind, svc)
+	if err != nil {
+		r.Inconclusive(err.Error())
+		return
+	}
+	defer srv.Close()
+	client := srv.NewClient()
+	client.Codec = core.NewClientCodec(core.WithSimple(g.simple))
+	client.Timeout = 20 * time.Second
+	defer client.Abort()
+	var proxy struct {
+		Add   func(args *Args) (*Reply, error)
+		NsAdd func(args *Args) (*Reply, error) `name:"ns_Add"`
+		Quota func(n int) (int, error)          `name:"quota"`
+		Rich  func(n int) (string, error)       `name:"rich"`
+	}
+	client.UseService(&proxy)
+	rep := map[string]interface{}{"group": g.String()}
+	check := func(how string, a Args, got *Reply, err error) {
+		var want Reply
+		werr := Arith{}.Add(&a, &want)
+		r.Eval(1)
+		if (werr == nil) != (err == nil) || werr != nil && werr.Error() != err.Error() {
+			c.Violation("net-rpc-error-changed", fmt.Sprintf("%s Add(%+v): local error %v, remote error %v", how, a, werr, err), rep)
+			return
+		}
+		if werr != nil {
+			return
+		}
+		if got == nil || got.Sum != want.Sum || fmt.Sprint(got.Notes) != fmt.Sprint(want.Notes) || fmt.Sprint(got.Seen) != fmt.Sprint(want.Seen) {
+			c.Violation("net-rpc-reply-carries-another-calls-data", fmt.Sprintf("%s Add(%+v): a fresh reply gives %+v, the caller got %+v", how, a, want, got), rep)
+		}
+	}
+	// sequential: calls that fill different parts of the reply
+	for _, a := range []Args{{2, 3}, {1, 1}, {4, 6}, {7, 9}, {-2, 3}, {3, 2}, {0, 0}, {5, 5}} {
+		got, err := proxy.Add(&a)
+		check("sequential", a, got, err)
+		got, err = proxy.NsAdd(&a)
+		check("sequential ns_", a, got, err)
+	}
+	// concurrent
+	var wg sync.WaitGroup
+	for w := 0; w < 6; w++ {
+		wg.Add(1)
+		go func(w int) {
+			defer wg.Done()
+			for i := 0; i < 12; i++ {
+				a := Args{w*10 + i, i}
+				got, err := proxy.Add(&a)
+				check("concurrent", a, got, err)
+			}
+		}(w)
+	}
+	wg.Wait()
+	// concrete error types: a typed nil means "no error"
+	for _, n := range []int{1, 50, 100, 101, 500} {
+		got, err := proxy.Quota(n)
+		r.Eval(1)
+		if n > 100 {
+			if err == nil || err.Error() != fmt.Sprintf("quota exceeded, %d left", n-100) {
+				c.Violation("error-message-changed:concrete-error-type", fmt.Sprintf("quota(%d): got (%d, %v)", n, got, err), rep)
+			}
+		} else if err != nil || got != n*2 {
+			c.Violation("success-became-error:concrete-error-type", fmt.Sprintf("quota(%d) returns (%d, nil) locally; the caller got (%d, %v)", n, n*2, got, err), rep)
+		}
+	}
+	for _, n := range []int{0, 1, 2, 7} {
+		got, err := proxy.Rich(n)
+		r.Eval(1)
+		if n%2 == 1 {
+			if err == nil || err.Error() != fmt.Sprintf("coded error %d", n) {
+				c.Violation("error-message-changed:error-interface-type", fmt.Sprintf("rich(%d): got (%q, %v)", n, got, err), rep)
+			}
+		} else if err != nil || got != fmt.Sprint("even ", n) {
+			c.Violation("success-became-error:error-interface-type", fmt.Sprintf("rich(%d): the caller got (%q, %v)", n, got, err), rep)
+		}
+	}
+	r.Distinct(fmt.Sprintf("%s|netrpc", g))
+}
+
+// twoServices: one client addresses two services in turn (changing its URI); every call must
+// reach the service that is addressed.
+func twoServices(c *h.Case, g group) {
+	r := c.R
+	mk := func(tag string) (*peer.Server, error) {
+		svc := core.NewService()
+		svc.AddFunction(func(s string) string { return tag + ":" + s }, "who")
+		return peer.Start(g.kind, svc)
+	}
+	a, err := mk("service-A")
+	if err != nil {
+		r.Inconclusive(err.Error())
+		return
+	}
+	defer a.Close()
+	b, err := mk("service-B")
+	if err != nil {
+		r.Inconclusive(err.Error())
+		return
+	}
+	defer b.Close()
+	client := core.NewClient(a.URL)
+	client.Timeout = 10 * time.Second
+	defer client.Abort()
+	var proxy struct {
+		Who func(s string) (string, error) `name:"who"`
+	}
+	client.UseService(&proxy)
+	for i := 0; i < 8; i++ {
+		srv, tag := a, "service-A"
+		if i%2 == 1 {
+			srv, tag = b, "service-B"
+		}
+		client.SetURI(srv.URL)
+		got, err := proxy.Who(fmt.Sprint(i))
+		r.Eval(1)
+		if err != nil || got != fmt.Sprintf("%s:%d", tag, i) {
+			c.Violation("call-reached-another-service", fmt.Sprintf("the client was pointed at %s (%s) and who(%d) returned (%q, %v)", tag, srv.URL, i, got, err), map[string]interface{}{"group": g.String()})
+			break
+		}
+	}
+	r.Distinct(fmt.Sprintf("%s|two-services", g))
 }
